@@ -340,30 +340,49 @@ Qed.
 
 (** the cell for an integral double extremum [f_of_Z z] and the exact integer extremum *)
 Lemma minmax_emit_small_min : forall z mi, small z ->
-  minmax_emit true (f_of_Z z) mi = VInt (match mi with Some i => Z.min i z | None => z end).
+  minmax_emit true (Some (f_of_Z z)) mi = VInt (match mi with Some i => Z.min i z | None => z end).
 Proof.
   intros z mi Hz.
-  pose proof (proj2 (f_of_Z_valid z Hz)) as Hfin.
   pose proof (from_float_of_Z z Hz) as Hff.
-  unfold minmax_emit. rewrite Hff.
-  assert (Hm : match mi with Some i => vmin (VInt i) (VInt z) | None => VInt z end =
-               VInt (match mi with Some i => Z.min i z | None => z end)).
-  { destruct mi as [i|]; [|reflexivity]. unfold vmin. cbn [vcmp].
-    destruct (Z.compare_spec z i); f_equal; lia. }
-  destruct (f_of_Z z) as [s|s| |s m e]; try discriminate Hfin; exact Hm.
+  unfold minmax_emit. cbn [option_map]. rewrite Hff.
+  destruct mi as [i|]; [|reflexivity]. unfold vmin. cbn [vcmp].
+  destruct (Z.compare_spec z i); f_equal; lia.
 Qed.
 Lemma minmax_emit_small_max : forall z mi, small z ->
-  minmax_emit false (f_of_Z z) mi = VInt (match mi with Some i => Z.max i z | None => z end).
+  minmax_emit false (Some (f_of_Z z)) mi = VInt (match mi with Some i => Z.max i z | None => z end).
 Proof.
   intros z mi Hz.
-  pose proof (proj2 (f_of_Z_valid z Hz)) as Hfin.
   pose proof (from_float_of_Z z Hz) as Hff.
-  unfold minmax_emit. rewrite Hff.
-  assert (Hm : match mi with Some i => vmax (VInt i) (VInt z) | None => VInt z end =
-               VInt (match mi with Some i => Z.max i z | None => z end)).
-  { destruct mi as [i|]; [|reflexivity]. unfold vmax. cbn [vcmp].
-    destruct (Z.compare_spec z i); f_equal; lia. }
-  destruct (f_of_Z z) as [s|s| |s m e]; try discriminate Hfin; exact Hm.
+  unfold minmax_emit. cbn [option_map]. rewrite Hff.
+  destruct mi as [i|]; [|reflexivity]. unfold vmax. cbn [vcmp].
+  destruct (Z.compare_spec z i); f_equal; lia.
+Qed.
+
+(** the double extremum of converted integers of magnitude at most 2^53: the converted extremum *)
+Lemma filter_not_nan_ints : forall zs, Forall small zs ->
+  filter not_nan (map f_of_Z zs) = map f_of_Z zs.
+Proof.
+  induction zs as [|z zs IH]; intro Hf; [reflexivity|].
+  inversion Hf as [|z' zs' Hz Hzs]; subst. cbn [map filter].
+  pose proof (proj2 (f_of_Z_valid z Hz)) as Hfin. unfold not_nan at 1.
+  destruct (f_of_Z z) as [s|s| |s m e] eqn:E; try discriminate Hfin;
+    cbn [f_is_nan negb]; rewrite (IH Hzs); reflexivity.
+Qed.
+Lemma minF_ints : forall zs, Forall small zs ->
+  minF (map f_of_Z zs) = option_map f_of_Z (minZ zs).
+Proof.
+  intros zs Hf. unfold minF. rewrite filter_not_nan_ints by exact Hf.
+  destruct zs as [|z zs]; [reflexivity|].
+  inversion Hf as [|z' zs' Hz Hzs]; subst. cbn [map minZ option_map].
+  rewrite fold_min_ints by assumption. reflexivity.
+Qed.
+Lemma maxF_ints : forall zs, Forall small zs ->
+  maxF (map f_of_Z zs) = option_map f_of_Z (maxZ zs).
+Proof.
+  intros zs Hf. unfold maxF. rewrite filter_not_nan_ints by exact Hf.
+  destruct zs as [|z zs]; [reflexivity|].
+  inversion Hf as [|z' zs' Hz Hzs]; subst. cbn [map maxZ option_map].
+  rewrite fold_max_ints by assumption. reflexivity.
 Qed.
 
 (** min / max are exact: over the integer arguments (an integer, or text holding one) WITHOUT any
@@ -374,13 +393,11 @@ Theorem min_exact : forall e rows fz,
   acc_emit (fold_left acc_step rows (acc_empty (FMin e))) =
   Ok (match minZ (int_args e rows ++ fz) with Some m => VInt m | None => VNone end).
 Proof.
-  intros e rows fz Hn Hf. rewrite min_emit, Hn, minZ_app.
+  intros e rows fz Hn Hf. rewrite min_emit, Hn, minZ_app, minF_ints by exact Hf.
   destruct fz as [|z fz].
-  - cbn [map fold_left minZ]. destruct (minZ (int_args e rows)); reflexivity.
+  - cbn [minZ option_map]. destruct (minZ (int_args e rows)); reflexivity.
   - inversion Hf as [|z' zs' Hz Hzs]; subst.
-    cbn [map fold_left minZ].
-    rewrite (fltb_finite_inf _ (proj2 (f_of_Z_valid z Hz))).
-    rewrite fold_min_ints by assumption.
+    cbn [minZ option_map].
     rewrite minmax_emit_small_min by (apply small_fold_min; assumption).
     destruct (minZ (int_args e rows)); reflexivity.
 Qed.
@@ -390,13 +407,11 @@ Theorem max_exact : forall e rows fz,
   acc_emit (fold_left acc_step rows (acc_empty (FMax e))) =
   Ok (match maxZ (int_args e rows ++ fz) with Some m => VInt m | None => VNone end).
 Proof.
-  intros e rows fz Hn Hf. rewrite max_emit, Hn, maxZ_app.
+  intros e rows fz Hn Hf. rewrite max_emit, Hn, maxZ_app, maxF_ints by exact Hf.
   destruct fz as [|z fz].
-  - cbn [map fold_left maxZ]. destruct (maxZ (int_args e rows)); reflexivity.
+  - cbn [maxZ option_map]. destruct (maxZ (int_args e rows)); reflexivity.
   - inversion Hf as [|z' zs' Hz Hzs]; subst.
-    cbn [map fold_left maxZ].
-    rewrite (fltb_neg_inf_finite _ (proj2 (f_of_Z_valid z Hz))).
-    rewrite fold_max_ints by assumption.
+    cbn [maxZ option_map].
     rewrite minmax_emit_small_max by (apply small_fold_max; assumption).
     destruct (maxZ (int_args e rows)); reflexivity.
 Qed.
